@@ -50,6 +50,19 @@ def alphabet(dt, scheme):
     finite extremes and magnitudes around 2**mantissa instead of inf)"""
     d = np.dtype(dt)
     lo, hi = limits(dt)
+    if scheme == "close":
+        # neighbouring values that are distinct but relatively close (a tolerance-based comparison would merge them)
+        if d.kind == "b":
+            return [bool(b) for b in _BITS[3:] + _BITS[:3]]
+        if d.kind == "f":
+            eps = float(np.finfo(d).eps)
+            return [1.0, 1.0 + 4 * eps, 1.0 + 8 * eps, 1024.0, 1024.0 * (1 + 4 * eps), 1.0, -3.0, -3.0 * (1 + 4 * eps), 1e-30, 2e-30, 1.0 + 4 * eps, 0.0,
+                    1024.0]
+        big = min(hi - 3, 10 ** 6)
+        vals = [big, big + 1, hi, hi - 1, big + 2, big, hi - 2, big + 1, hi]
+        if d.kind == "i":
+            vals += [lo, lo + 1, -big, -big - 1]
+        return vals
     if scheme == "extreme":
         if d.kind == "f":
             big = float(2 ** (np.finfo(d).nmant + 1))          # 2**53 / 2**24: the next integer is not representable
